@@ -1256,3 +1256,88 @@ Lemma ex_send : exists w' tagged,
   map (fun p => (fst p, h_id (m_header (snd p)))) tagged = [(0, 10%N); (1, 20%N); (1, 21%N); (0, 11%N)] /\
   List.length (w_calls w') = 4.
 Proof. eexists; eexists. split; [vm_compute; reflexivity|]. vm_compute. auto. Qed.
+
+(* ---------- C10 (b) once more, stated with an interleaving relation on plain lists ---------- *)
+Inductive Interleaving {A} : list (list A) -> list A -> Prop :=
+| IL_done : forall ls, Forall (fun l => l = []) ls -> Interleaving ls []
+| IL_step : forall ls i x ls' l, pop_nth i ls = Some (x, ls') -> Interleaving ls' l -> Interleaving ls (x :: l).
+
+Lemma all_nil_nth {A} (ls : list (list A)) i : Forall (fun l => l = []) ls -> nth i ls [] = [].
+Proof.
+  intro F. destruct (nth_in_or_default i ls []) as [Hin|E]; [|exact E]. rewrite Forall_forall in F. now apply F.
+Qed.
+
+Lemma all_nil_concat {A} (ls : list (list A)) : Forall (fun l => l = []) ls -> List.concat ls = [].
+Proof. induction 1 as [|x ls Hx _ IH]; cbn; [reflexivity|]. now rewrite Hx, IH. Qed.
+
+Lemma pop_nth_perm {A} i : forall (ls ls' : list (list A)) x, pop_nth i ls = Some (x, ls') ->
+  Permutation (List.concat ls) (x :: List.concat ls').
+Proof.
+  induction i as [|i IH]; intros ls ls' x H.
+  - destruct ls as [|[|y q] r]; cbn in H; try discriminate. inversion H; subst. cbn. reflexivity.
+  - destruct ls as [|q r]; [discriminate|].
+    assert (H' : match pop_nth i r with Some (x, r') => Some (x, q :: r') | None => None end = Some (x, ls'))
+      by (destruct q; exact H).
+    clear H. destruct (pop_nth i r) as [[y r']|] eqn:E; [|discriminate]. inversion H'; subst. cbn.
+    rewrite (IH r r' x E). symmetry. apply Permutation_middle.
+Qed.
+
+Lemma interleaving_forall {A} (P : A -> Prop) (ls : list (list A)) l :
+  Interleaving ls l -> Forall (Forall P) ls -> Forall P l.
+Proof.
+  induction 1 as [|ls i x ls' l Hp _ IH]; intro F; [constructor|].
+  destruct (pop_nth_spec P i ls ls' x Hp) as (_ & _ & Hv). destruct (Hv F). constructor; auto.
+Qed.
+
+Lemma interleaving_perm {A} (ls : list (list A)) l : Interleaving ls l -> Permutation l (List.concat ls).
+Proof.
+  induction 1 as [ls F|ls i x ls' l Hp _ IH]; [now rewrite all_nil_concat|].
+  rewrite (pop_nth_perm i ls ls' x Hp). now constructor.
+Qed.
+
+Lemma interleaving_tags {A} (ls : list (list A)) l : Interleaving ls l ->
+  exists tags, List.length tags = List.length l /\
+    forall i, map snd (List.filter (fun p => Nat.eqb (fst p) i) (combine tags l)) = nth i ls [].
+Proof.
+  induction 1 as [ls F|ls i0 x ls' l Hp _ (tags & Hlen & Hproj)].
+  - exists []. split; [reflexivity|]. intro i. cbn. symmetry. now apply all_nil_nth.
+  - exists (i0 :: tags). split; [cbn; now rewrite Hlen|]. intro i. cbn [combine List.filter fst].
+    destruct (pop_nth_spec (fun _ => True) i0 ls ls' x Hp) as (Hi & Hj & _).
+    destruct (Nat.eqb i0 i) eqn:E.
+    + apply Nat.eqb_eq in E. subst i. cbn. now rewrite Hproj, Hi.
+    + apply Nat.eqb_neq in E. rewrite Hproj. apply Hj. congruence.
+Qed.
+
+(* if the byte stream is the concatenation of whole frames of l, and l is an interleaving of the senders'
+   lists, then for every fragmentation the reader returns l: every message intact, exactly once
+   (l is a permutation of all the lists together), each sender's messages in that sender's order *)
+Theorem interleave_decodes ls l sched :
+  Forall (Forall valid_msg) ls -> Interleaving ls l -> pos_sched sched ->
+  (exists sched', read_all (S (List.length l)) {| s_data := List.concat (map enc_msg l); s_sched := sched |} =
+                    Some (l, EEOF, {| s_data := []; s_sched := sched' |})) /\
+  Permutation l (List.concat ls) /\
+  (exists tags, List.length tags = List.length l /\
+     forall i, map snd (List.filter (fun p => Nat.eqb (fst p) i) (combine tags l)) = nth i ls []).
+Proof.
+  intros Hv Hi Hpos. split; [|split].
+  - apply read_all_sequence; [|exact Hpos]. eapply interleaving_forall; eauto.
+  - now apply interleaving_perm.
+  - now apply interleaving_tags.
+Qed.
+
+(* the runs of the sender system are interleavings *)
+Lemma send_run_interleaving sched : forall pending calls sent w' rest out,
+  Forall (Forall valid_msg) pending ->
+  send_run sched pending {| w_calls := calls; w_sched := [] |} sent = Some (Ok (w', rest, out)) ->
+  Forall (fun l => l = []) rest ->
+  exists more, out = rev sent ++ more /\ Interleaving pending (map snd more).
+Proof.
+  induction sched as [|i sched IH]; intros pending calls sent w' rest out Hv Hrun Hrest; cbn [send_run] in Hrun.
+  - inversion Hrun; subst. exists []. rewrite app_nil_r. split; [reflexivity|]. now constructor.
+  - destruct (pop_nth i pending) as [[m pending']|] eqn:Ep; [|eapply IH; eauto].
+    destruct (pop_nth_spec valid_msg i pending pending' m Ep) as (_ & _ & Hval). destruct (Hval Hv) as [Hm Hv'].
+    rewrite (write_msg_once m calls Hm) in Hrun.
+    destruct (IH pending' _ _ _ _ _ Hv' Hrun Hrest) as (more & E & Hil).
+    exists ((i, m) :: more). split; [rewrite E; cbn [rev]; now rewrite <- app_assoc|].
+    cbn. econstructor; eauto.
+Qed.
